@@ -132,6 +132,9 @@ func (s *Sim) checkArrival(n *RecvNode, a *arrival) {
 			s.violate(prop, "delivered-without-log-record", "file %s (%s) arrived but the receive log has no record (%s,%s)", a.Path, name, name, short(a.MD5))
 		}
 	}
+	if nm, ok := ann[a.MD5]; ok {
+		s.checkOrderAtArrival(n, a, nm, a.MD5)
+	}
 	if s.on("C05", "C06", "C07") {
 		cnt := 0
 		for _, b := range s.ob.arrivals {
@@ -166,7 +169,32 @@ func (s *Sim) checkRelease(n *SendNode, what, name, md5 string) {
 	prop := s.sc.Prop
 	ok, where := s.receiverHoldsValidated(name, md5)
 	if !ok {
-		s.violate(prop, "released-without-validated-copy", "%s of source %s (content %s) but the receiving side holds no validated copy of that content (%s)", what, name, short(md5), where)
+		// classify the history (known-findings are keyed on this)
+		transmitted, earlier, scanned := false, false, false
+		for _, t := range s.ob.tx {
+			for _, p := range t.Parts {
+				if p.Name == name && p.Hash == md5 {
+					transmitted = true
+				}
+			}
+		}
+		for _, a := range s.ob.arrivals {
+			if a.MD5 != md5 && s.arrivalIsOf(a, name) {
+				earlier = true
+			}
+		}
+		for _, sc := range s.ob.scans {
+			if sc.Inc == n.inc {
+				scanned = true
+			}
+		}
+		oracle := "released-without-validated-copy"
+		if !transmitted && earlier && !scanned && n.inc > 0 {
+			// the restarted sender's start-up poll (by name) was answered for an
+			// earlier delivered version of the name
+			oracle = "released-on-startup-poll-for-earlier-version"
+		}
+		s.violate(prop, oracle, "%s of source %s (content %s) but the receiving side holds no validated copy of that content (%s)", what, name, short(md5), where)
 		return
 	}
 	// a positive poll answer for this name must have reached the sender
@@ -192,10 +220,25 @@ func (s *Sim) checkStatusAnswer(d *gkDeco, name string, code int) {
 	n := d.n
 	p := filepath.Join(n.stageDir(), d.source, name)
 	if _, err := os.Stat(p + ".wait"); err == nil {
-		// .wait must hash to the companion's announced hash
-		if cmp := readCmp(p + ".cmp"); cmp != nil {
-			if m, _, e := fileMD5(p + ".wait"); e == nil && m != cmp.Hash {
-				s.violate(s.sc.Prop, "positive-answer-unvalidated", "status %d for %s but staged .wait content %s differs from announced %s", code, name, short(m), short(cmp.Hash))
+		// .wait must hold content whose hash the sender announced for this
+		// name (the companion is not a reliable witness: late parts of an
+		// older version may have rewritten it)
+		if m, _, e := fileMD5(p + ".wait"); e == nil {
+			okh := false
+			for _, t := range s.ob.tx {
+				for _, pd := range t.Parts {
+					if pd.Name == name && pd.Hash == m {
+						okh = true
+					}
+				}
+			}
+			for _, pd := range s.extraAnnounced {
+				if pd.Name == name && pd.Hash == m {
+					okh = true
+				}
+			}
+			if !okh {
+				s.violate(s.sc.Prop, "positive-answer-unvalidated", "status %d for %s but the staged .wait content %s matches no hash announced for it", code, name, short(m))
 			}
 		}
 		return
@@ -214,14 +257,110 @@ func (s *Sim) checkStatusAnswer(d *gkDeco, name string, code int) {
 // ---------------------------------------------------------------- final
 
 func (s *Sim) finalOracles() {
-	if s.on("C03") && !s.settledFinal && !s.inconclusive && s.ob.stopStep < 0 {
-		s.violate("C03", "not-delivered-within-bound", "after %s without faults the system is not settled: %s", s.sc.Settle, s.unsettledWhy)
+	if s.on("C03", "C06", "C07") && !s.settledFinal && !s.inconclusive && s.ob.stopStep < 0 {
+		s.violate(s.sc.Prop, "not-delivered-within-bound", "after %s without faults the system is not settled: %s", s.sc.Settle, s.unsettledWhy)
 	}
 	if s.on("C05", "C06", "C07") {
 		s.checkLogCounts()
 	}
+	if s.on("C16") && s.ob.stopStep >= 0 && len(s.sendAll) > 0 {
+		s.checkStop(s.sendAll[0])
+	}
 	for _, f := range s.finalHooks {
 		f()
+	}
+}
+
+type cacheOnDisk struct {
+	Files map[string]struct {
+		Hash string `json:"hash"`
+		Done bool   `json:"done"`
+	} `json:"files"`
+}
+
+func readCacheOnDisk(n *SendNode) *cacheOnDisk {
+	m, _ := filepath.Glob(filepath.Join(n.root, "cache", "*.json"))
+	c := &cacheOnDisk{}
+	if len(m) == 0 {
+		return c
+	}
+	b, err := os.ReadFile(m[0])
+	if err != nil {
+		return c
+	}
+	jsonUnmarshal(b, c)
+	return c
+}
+
+// checkStop: C16 - every stop terminates; a graceful stop finishes the work.
+func (s *Sim) checkStop(n *SendNode) {
+	graceful := s.sc.StopGraceful || s.sc.OneShot
+	if !n.exited.Load() {
+		if !s.inconclusive {
+			kind := "immediate"
+			if graceful {
+				kind = "graceful"
+			}
+			s.violate("C16", "stop-did-not-terminate", "%s stop requested at step %d; the sender has not exited %s of fault-free simulated time later", kind, s.ob.stopStep, s.sc.Settle)
+		}
+		return
+	}
+	if !graceful {
+		return
+	}
+	disk := readCacheOnDisk(n)
+	// nothing that was confirmed is left unrecorded in the queue cache
+	names := map[string]bool{}
+	for _, p := range s.ob.polls {
+		if p.Inc != n.inc || !p.Done {
+			continue
+		}
+		for name, code := range p.Answer {
+			if code == sts.ConfirmPassed || code == sts.ConfirmWaiting {
+				names[name] = true
+			}
+		}
+	}
+	var list []string
+	for k := range names {
+		list = append(list, k)
+	}
+	sort.Strings(list)
+	for _, name := range list {
+		if len(s.ob.versions[name]) > 1 {
+			continue // changed by the environment meanwhile
+		}
+		e, ok := disk.Files[name]
+		if ok && !e.Done {
+			s.violate("C16", "confirmed-but-not-recorded", "%s was confirmed by the receiver before the graceful stop completed but the queue cache on disk does not show it done", name)
+		}
+	}
+	// in the fault-free population a graceful stop delivers everything the scans found
+	if s.sc.FaultFree && s.nFaults == 0 {
+		found := map[string]bool{}
+		for _, sc := range s.ob.scans {
+			if sc.Inc == n.inc {
+				for _, nm := range sc.Names {
+					found[nm] = true
+				}
+			}
+		}
+		var fl []string
+		for k := range found {
+			fl = append(fl, k)
+		}
+		sort.Strings(fl)
+		for _, name := range fl {
+			vs := s.ob.versions[name]
+			if len(vs) != 1 {
+				continue
+			}
+			if !s.arrived(name, vs[0]) {
+				s.violate("C16", "graceful-stop-left-file-undelivered", "fault-free run: the sender exited after a graceful stop although %s, found by a completed scan, was never delivered (%s)", name, s.whereIs(name))
+			} else if e, ok := disk.Files[name]; ok && !e.Done {
+				s.violate("C16", "graceful-stop-left-file-unconfirmed", "fault-free run: the sender exited after a graceful stop but %s is not recorded done", name)
+			}
+		}
 	}
 }
 
